@@ -130,16 +130,16 @@ TEXT = {
                      "on the tree with continuation-passing statements for the loop levels) + model/implementation correspondence + table-driven predicate",
     },
     "C01": {
-        "level": "Exploration: for every error-free parse of the corpus, probes, mutations and expression soups, SQL() re-parses with the same entry point to a tree equal up to position values and is a fixed point. Two recorded known findings (join method, empty PRIMARY KEY) are recognised by call site.",
+        "level": "Proof (partial: a fragment). Explored on the real entry points: for every error-free parse of the corpus, probes, mutations and expression soups, SQL() re-parses with the same entry point to a tree equal up to position values and is a fixed point. Two recorded known findings (join method, empty PRIMARY KEY) are recognised by call site. PROVED for the expression fragment M1 of C07 (MF/Props/C01Expr.lean, on the models of lexer.go, parseExpr..parseLit and the SQL() methods): the byte-level round trip `roundtrip_expr_partial` (accepted input => the SQL() text lexes and parses to the same tree, under the necessary hypothesis that no identifier token reads SAFE_CAST / REPLACE_FIELDS), `printed_lexes` (the lexer reads the printed text of ANY tree with lexer-producible leaves as exactly the printer's tokens), `fixed_point_expr`, and a kernel-checked counterexample showing the hypothesis necessary for the model (the corresponding defect of the Go code — `SAFE_CAST` written with back quotes did not re-parse — was found by this proof and is repaired).",
         "design_ref": "DESIGN.md §4 C01",
-        "note": "No Lean theorem is claimed for this property yet; the claimed level is exploration of the real entry points. Known findings are listed in known-findings.txt.",
-        "technique": "property predicate evaluated on the implementation (corpus, probes, token-level mutations, expression soups); Lean obligations pending",
+        "note": "Theorems cover the expression fragment only and are about the models (tied to the code by the LEX and EXPR channels); everything else is exploration plus kernel-decided table obligations. Known findings are listed in known-findings.txt.",
+        "technique": "Lean 4 proof for the expression fragment (lexer concatenation theorem + printer/lexer agreement + parser completeness) + table obligations + property predicate evaluated on the implementation",
     },
     "C02": {
-        "level": "Exploration: significant-token sequence of the input (from the lexer, which C13/C14 cover by proof) vs that of SQL() modulo the documented canonicalisations, for every error-free parse of the explored inputs.",
+        "level": "Proof (partial: a fragment). Explored on the real entry points: significant-token sequence of the input (from the lexer, which C13/C14 cover by proof) vs that of SQL() modulo the documented canonicalisations, for every error-free parse of the explored inputs. PROVED for the expression fragment M1 of C07 (MF/Props/C01Expr.lean `lossless_expr`, on the models): the projected tokens (kind class + value; keyword case, `<>`/`!=`, quoting style, positions and trivia erased) of the SQL() text are those of the input, token by token, except that an identifier spelling a position keyword in x[kw(...)] comes back in canonical spelling (relation CanonRel; equality after canonTok).",
         "design_ref": "DESIGN.md §4 C02",
-        "note": "No Lean theorem is claimed for this property yet; the claimed level is exploration of the real entry points. Known findings are listed in known-findings.txt.",
-        "technique": "property predicate evaluated on the implementation (corpus, probes, token-level mutations, expression soups); Lean obligations pending",
+        "note": "Theorems cover the expression fragment only and are about the models (tied to the code by the LEX and EXPR channels); everything else is exploration plus kernel-decided table obligations. Known findings are listed in known-findings.txt.",
+        "technique": "Lean 4 proof for the expression fragment (lexer concatenation theorem + printer/lexer agreement + parser completeness) + table obligations + property predicate evaluated on the implementation",
     },
     "C05": {
         "level": "Exploration: range, token alignment (with the >> split), nesting and sibling order of every node of every returned tree; Lean theorems about Pos()/End() as functions of the tree exist (C04/C19) but the parser-side alignment is not proved.",
